@@ -574,32 +574,42 @@ theorem data_before_close_unrestricted_false : ¬ data_before_close_unrestricted
         some (.data 0 [7]) := by decide
   exact hall j hj hd
 
-/-- **The link invariant of honest worlds.**  Two sides built by `choose_role` (no declared
-    `expected_subprotocols`), any honest schedule (`HonestRun`: application calls and `select()`
-    turns on both sides; the peer's next new record arriving, directly or parked with a KCM;
-    records already processed arriving again after a loss, directly or parked; connection losses):
-    `HInv` holds throughout — per direction, every live SubChannel object has seen exactly what
-    the peer sent on its id, as far as processed (`Rcv.m`), nothing is sent on an id after its
-    CLOSE (`Snd.ndac`), seqnums are 0,1,2,… (`Snd.seq`), ids are never shared or reused
-    (`Rcv.uniq`, `Snd.org`), … -/
-theorem honest_world_invariant {sa sb : String} {w : World} (hw : World.init sa sb none none = some w)
-    (ops : List WOp) (hon : HonestRun w ops) : HInv (wrun w ops) :=
+/-- **The link invariant of honest worlds.**  Two sides built by `choose_role`, each with any
+    `expected_subprotocols` (unset, empty, any set), any honest schedule (`HonestRun`: application
+    calls and `select()` turns on both sides; the peer's next new record arriving, directly or
+    parked with a KCM; records already processed arriving again after a loss, directly or parked;
+    connection losses at any moment — also while records are parked and not yet handed over, which
+    drops them and makes the peer send them again: `WOp.lostA/lostB`): `HInv` holds throughout —
+    per direction, every live SubChannel object has seen exactly what the peer sent on its id, as
+    far as processed (`Rcv.m`), nothing is sent on an id after its CLOSE (`Snd.ndac`), seqnums are
+    0,1,2,… (`Snd.seq`), ids are never shared or reused (`Rcv.uniq`, `Snd.org`), …  An OPEN that is
+    refused because its name is outside the declared set leaves a SubChannel object that is
+    registered nowhere and never gets a protocol (`refuse_step`): the per-object clauses speak about
+    `live` objects, the refusing CLOSE is accounted for on the wire (`Snd.ndac/obu/ts`), and whatever
+    the opener still sends on that id finds no subchannel and is logged (`rx_item_step`). -/
+theorem honest_world_invariant {sa sb : String} {ea eb : Option (List String)} {w : World}
+    (hw : World.init sa sb ea eb = some w) (ops : List WOp) (hon : HonestRun w ops) : HInv (wrun w ops) :=
   honest_run ops w (HInv_init hw) hon
 
-/-- **data_before_close** (two-sided, run level).  In an honest world, whatever the schedule:
-    every DATA side A ever put on subchannel `scid` has been handed to `dataReceived` of B's
-    protocol for that subchannel *before* that protocol gets its close signal (`connectionLost`,
-    or `readConnectionLost` for a half-closeable protocol).  Since after its CLOSE A sends nothing
+/-- **data_before_close** (two-sided, run level).  In an honest world — any declared
+    `expected_subprotocols` on either side, any schedule of application calls, deliveries, parked
+    bursts, `select()` turns, re-sent records and connection losses (`HonestRun`) — every DATA side A
+    ever put on subchannel `scid` has been handed to `dataReceived` of B's protocol for that
+    subchannel *before* that protocol gets its close signal (`connectionLost`, or
+    `readConnectionLost` for a half-closeable protocol).  Since after its CLOSE A sends nothing
     more on the id (`Snd.ndac`, `write_after_close_errors`), this is: everything written before the
     local close is delivered before the peer sees the connection lost.
 
-    `_partial`: two schedule classes are not covered.  (1) Worlds where a side declared
-    `expected_subprotocols` (refused OPENs leave unreachable SubChannel objects; the invariant is
-    proved for `none`/`none` only).  (2) A connection loss while records are parked but not yet
-    drained by `select()` (`Honest.lostA/lostB` require nothing unprocessed): the world model counts
-    a parked record as delivered and has no way to deliver it again, so that schedule cannot be
-    expressed honestly; the harness never produces it either (its `link` step is atomic). -/
-theorem data_before_close_honest_partial {sa sb : String} {w : World} (hw : World.init sa sb none none = some w)
+    Nothing honest is excluded any more (this was `data_before_close_honest_partial`): worlds with
+    declared sets are covered (a refused OPEN has no protocol, so the statement does not speak about
+    it; an accepted one next to it is covered like any other), and so is a connection loss while
+    records are parked on a connection that `select()` has not reached yet (`Honest.dropA/dropB`: the
+    parked records vanish with the connection, the peer's `Outbound` sends everything un-acked again,
+    the watermark drops what had been processed, and the rest is read exactly once, in order).  What
+    stays outside is what the property's environment excludes: records injected from outside the two
+    Managers (`data_before_close_unrestricted_false`). -/
+theorem data_before_close_honest {sa sb : String} {ea eb : Option (List String)} {w : World}
+    (hw : World.init sa sb ea eb = some w)
     (ops : List WOp) (hon : HonestRun w ops)
     {q scid : Nat} {d : Bytes} (hd : Eff.txData q scid d ∈ (wrun w ops).a.log)
     {uid : Nat} {c : SC} {pb : Nat} {k : PKind} (hc : (wrun w ops).b.subs[uid]? = some c) (hs : c.scid = scid)
@@ -612,7 +622,8 @@ theorem data_before_close_honest_partial {sa sb : String} {w : World} (hw : Worl
   · exact dbc_core h.sndA h.rcvB hd hc hs hp hi (Or.inr rfl)
 
 /-- the same in the other direction (B writes, A reads) -/
-theorem data_before_close_honest_partial_rev {sa sb : String} {w : World} (hw : World.init sa sb none none = some w)
+theorem data_before_close_honest_rev {sa sb : String} {ea eb : Option (List String)} {w : World}
+    (hw : World.init sa sb ea eb = some w)
     (ops : List WOp) (hon : HonestRun w ops)
     {q scid : Nat} {d : Bytes} (hd : Eff.txData q scid d ∈ (wrun w ops).b.log)
     {uid : Nat} {c : SC} {pa : Nat} {k : PKind} (hc : (wrun w ops).a.subs[uid]? = some c) (hs : c.scid = scid)
@@ -627,8 +638,10 @@ theorem data_before_close_honest_partial_rev {sa sb : String} {w : World} (hw : 
 /-- the protocol reads exactly the peer's stream: in an honest world the `dataReceived`/close
     callbacks of B's protocol for `scid` are, in order, the DATA/CLOSE records A sent on `scid`, as
     far as B has processed A's records — nothing dropped, duplicated, re-ordered or mixed up
-    between subchannels, across losses, re-sends and parked bursts -/
-theorem reads_are_what_was_sent {sa sb : String} {w : World} (hw : World.init sa sb none none = some w)
+    between subchannels, across losses (also of parked records), re-sends and parked bursts, with or
+    without declared sets -/
+theorem reads_are_what_was_sent {sa sb : String} {ea eb : Option (List String)} {w : World}
+    (hw : World.init sa sb ea eb = some w)
     (ops : List WOp) (hon : HonestRun w ops) {uid : Nat} {c : SC} {pb : Nat} {k : PKind}
     (hc : (wrun w ops).b.subs[uid]? = some c) (hp : c.proto = some (pb, k)) :
     rdItems pb (wrun w ops).b.log = sentTo c.scid (proc (wrun w ops).b) (wrun w ops).a.log := by
@@ -637,9 +650,35 @@ theorem reads_are_what_was_sent {sa sb : String} {w : World} (hw : World.init sa
   unfold seen at this
   simpa [hp] using this
 
+/-- **nothing is lost for good.**  Records dropped with a connection (parked, not yet handed over)
+    are not lost: as soon as B has processed all of A's records — however many losses, re-sends and
+    parked bursts it took — B's protocol for `scid` has read *everything* A ever put on `scid`, in
+    order, exactly once (a sender that failed to send un-acked records again would leave
+    `proc b < a.nextSeq` for ever; a receiver that processed a re-sent record twice would read more) -/
+theorem everything_processed_everything_read {sa sb : String} {ea eb : Option (List String)} {w : World}
+    (hw : World.init sa sb ea eb = some w)
+    (ops : List WOp) (hon : HonestRun w ops) {uid : Nat} {c : SC} {pb : Nat} {k : PKind}
+    (hc : (wrun w ops).b.subs[uid]? = some c) (hp : c.proto = some (pb, k))
+    (hall : (wrun w ops).a.nextSeq ≤ proc (wrun w ops).b) :
+    rdItems pb (wrun w ops).b.log = txItems c.scid (wrun w ops).a.log := by
+  rw [reads_are_what_was_sent hw ops hon hc hp]
+  exact sentTo_all (honest_world_invariant hw ops hon).sndA.seq _ _ hall
+
+/-- the cursor of a direction never runs ahead of the sender nor behind the receiver, and right
+    after a loss seen by B it is exactly at the first record B has not processed: what was parked on
+    the dead connection will be delivered again -/
+theorem loss_rewinds_to_unprocessed {sa sb : String} {ea eb : Option (List String)} {w : World}
+    (hw : World.init sa sb ea eb = some w) (ops : List WOp) (hon : HonestRun w ops) :
+    proc (wrun w ops).b ≤ (wrun w ops).dAB ∧ (wrun w ops).dAB ≤ (wrun w ops).a.nextSeq ∧
+    (wstep (wrun w ops) .lostB).1.dAB = proc (wrun w ops).b ∧ (wstep (wrun w ops) .lostB).1.b.parked = [] ∧
+    (wstep (wrun w ops) .lostB).1.b.highestAcked = (wrun w ops).b.highestAcked := by
+  have h := honest_world_invariant hw ops hon
+  exact ⟨h.rcvB.le1, h.rcvB.le2, Nat.min_eq_right h.rcvB.le1, rfl, rfl⟩
+
 /-- **connectionLost exactly once per side** (honest worlds): a connected SubChannel whose reader
     is closed has had its close signal — and (`world_connectionLost_once`) never twice -/
-theorem closed_subchannel_was_told {sa sb : String} {w : World} (hw : World.init sa sb none none = some w)
+theorem closed_subchannel_was_told {sa sb : String} {ea eb : Option (List String)} {w : World}
+    (hw : World.init sa sb ea eb = some w)
     (ops : List WOp) (hon : HonestRun w ops) {uid : Nat} {c : SC} {pb : Nat} {k : PKind}
     (hc : (wrun w ops).b.subs[uid]? = some c) (hp : c.proto = some (pb, k)) (hst : c.st = .closed ∨ c.st = .read_closed) :
     Eff.lost pb ∈ (wrun w ops).b.log ∨ Eff.readLost pb ∈ (wrun w ops).b.log := by
@@ -800,7 +839,7 @@ example :
   decide
 
 /-- an honest schedule with a parked burst, a connection loss and a re-sent record: the hypotheses
-    of `data_before_close_honest_partial` are met (B's protocol 0 for subchannel 1 reads [7], then
+    of `data_before_close_honest` are met (B's protocol 0 for subchannel 1 reads [7], then
     gets connectionLost), and A really sent `txData 1 1 [7]` -/
 def exHonestOps : List WOp :=
   [.onB (.listen "a" .full), .onA (.connect "a" .full), .onA (.write 0 [7]), .onA (.lose 0),
@@ -816,6 +855,74 @@ example : (wrun exHonestW exHonestOps).b.log =
     [.build 0 "a", .made 0, .data 0 [7], .txClose 0 1, .lost 0, .ack 1] ∧
     Eff.txData 1 1 [7] ∈ (wrun exHonestW exHonestOps).a.log ∧
     (wrun exHonestW exHonestOps).a.log.count (.lost 0) = 1 := by decide
+
+/-! ### newly covered: declared sets -/
+
+/-- leader "b1" / follower "a0"; the follower declared `expected_subprotocols=["a"]` and listens for "a".
+    The leader opens "b" (refused: CLOSE, nothing kept) and "a" (accepted), writes on both and closes
+    "a"; then the link drops and a processed record comes again.  B's protocol 0 (subchannel 3) reads
+    [7], then gets connectionLost; what A wrote on the refused id finds no subchannel. -/
+def exDeclOps : List WOp :=
+  [.onB (.listen "a" .full), .onA (.connect "b" .full), .onA (.connect "a" .full), .onA (.write 0 [9]), .onA (.write 1 [7]),
+   .onA (.lose 1), .deliverAB, .deliverAB, .deliverAB, .deliverAB, .deliverAB, .deliverBA, .lostB, .lostA,
+   .onB (Rx.toOp (.data 3 3 [7])), .deliverBA]
+
+def exDeclW : World := { a := Side.init true 1 none, b := Side.init false 2 (some ["a"]), dAB := 0, dBA := 0 }
+
+example : World.init "b1" "a0" none (some ["a"]) = some exDeclW := by simp [World.init, chooseRole, exDeclW]
+
+example : HonestRun exDeclW exDeclOps := by
+  refine ⟨.apiB rfl, .apiA rfl, .apiA rfl, .apiA rfl, .apiA rfl, .apiA rfl, .deliverAB ?_, .deliverAB ?_, .deliverAB ?_,
+    .deliverAB ?_, .deliverAB ?_, .deliverBA ?_, .dropB, .dropA, .resendAB ?_ ?_, .deliverBA ?_, trivial⟩ <;> decide
+
+example : (wrun exDeclW exDeclOps).b.log =
+    [.ack 0, .txClose 0 1, .ack 1, .build 0 "a", .made 0, .ack 2, .logErr "DataForMissingSubchannelError", .ack 3, .data 0 [7],
+     .ack 4, .txClose 1 3, .lost 0, .ack 3] ∧
+    Eff.txData 3 3 [7] ∈ (wrun exDeclW exDeclOps).a.log ∧
+    (wrun exDeclW exDeclOps).b.subs.map (fun c => (c.scid, c.proto)) = [(1, none), (3, some (0, .full))] ∧
+    (wrun exDeclW exDeclOps).b.open_ = [] := by decide
+
+/-- declared set + late listener + a parked OPEN/DATA/CLOSE burst: the follower declared ["a"] but
+    listens only after the burst (OPEN "a", DATA, CLOSE, and an OPEN "b" that is refused) was drained
+    by `select()`; the accepted subchannel waits with its data and close queued, the listener then
+    reads [7] and gets connectionLost -/
+def exDeclBurstOps : List WOp :=
+  [.onA (.connect "a" .full), .onA (.write 0 [7]), .onA (.lose 0), .onA (.connect "b" .full),
+   .parkAB, .parkAB, .parkAB, .parkAB, .onB .select, .onB (.listen "a" .full), .deliverBA, .deliverBA]
+
+example : HonestRun exDeclW exDeclBurstOps := by
+  refine ⟨.apiA rfl, .apiA rfl, .apiA rfl, .apiA rfl, .parkAB, .parkAB, .parkAB, .parkAB, .apiB rfl, .apiB rfl,
+    .deliverBA ?_, .deliverBA ?_, trivial⟩ <;> decide
+
+example : (wrun exDeclW exDeclBurstOps).b.log =
+    [.txClose 0 3, .build 0 "a", .made 0, .data 0 [7], .txClose 1 1, .lost 0] ∧
+    Eff.txData 1 1 [7] ∈ (wrun exDeclW exDeclBurstOps).a.log := by decide
+
+/-! ### newly covered: a loss while records are parked -/
+
+/-- OPEN is delivered; DATA and CLOSE arrive with the next connection's KCM and are parked; that
+    connection is lost before `select()` reaches it (`lostB`: parked records gone, cursor back at
+    record 1); the leader sends both again with the following KCM; now `select()` runs: B's protocol
+    reads [7] exactly once and then gets connectionLost. -/
+def exDropParkedOps : List WOp :=
+  [.onB (.listen "a" .full), .onA (.connect "a" .full), .deliverAB, .onA (.write 0 [7]), .onA (.lose 0),
+   .lostB, .lostA, .parkAB, .parkAB, .lostB, .lostA, .parkAB, .parkAB, .onB .select, .deliverBA]
+
+example : HonestRun exHonestW exDropParkedOps := by
+  refine ⟨.apiB rfl, .apiA rfl, .deliverAB ?_, .apiA rfl, .apiA rfl, .dropB, .dropA, .parkAB, .parkAB, .dropB, .dropA,
+    .parkAB, .parkAB, .apiB rfl, .deliverBA ?_, trivial⟩ <;> decide
+
+/-- the loss really happens with two unprocessed records parked, and they are really gone -/
+example :
+    let w := wrun exHonestW (exDropParkedOps.take 9)
+    w.b.parked = [.data 1 1 [7], .close 2 1] ∧ proc w.b = 1 ∧ w.dAB = 3 ∧
+    (wstep w .lostB).1.b.parked = [] ∧ (wstep w .lostB).1.dAB = 1 ∧ ¬ (proc w.b = w.dAB) := by decide
+
+example : (wrun exHonestW exDropParkedOps).b.log =
+    [.ack 0, .build 0 "a", .made 0, .data 0 [7], .txClose 0 1, .lost 0] ∧
+    Eff.txData 1 1 [7] ∈ (wrun exHonestW exDropParkedOps).a.log ∧
+    (wrun exHonestW exDropParkedOps).a.log.count (.lost 0) = 1 ∧
+    (wrun exHonestW exDropParkedOps).a.nextSeq ≤ proc (wrun exHonestW exDropParkedOps).b := by decide
 
 end Examples
 
